@@ -29,8 +29,8 @@ type layoutInterp struct {
 	env     map[types.Object]*sym.Term // integer locals
 	loopVal map[types.Object]int
 	alias   map[types.Object]string // locals that name a part (e := obj.Edist[i])
-	param   types.Object // the incoming vector (SetParameters) or the vector being built (GetParameters)
-	off     *sym.Term    // start of `parameters` inside the original vector
+	param   types.Object            // the incoming vector (SetParameters) or the vector being built (GetParameters)
+	off     *sym.Term               // start of `parameters` inside the original vector
 	segs    []layoutSeg
 	bounds  []string
 	und     string
